@@ -328,3 +328,11 @@ def ip_dump(fam, args):
     r, misses = _with_md5(fam, args, run)
     r["misses"] = misses
     return r
+
+
+@register("ip_history")
+def ip_history(fam, args):
+    """C03: every answer in a request history equals the answer of a fresh instance."""
+    r = ip_requests(fam, args)
+    bad = r["results"] != r["fresh"] or any(isinstance(x, str) for x in r["results"])
+    return dict(violated=bad, observed=r["results"], fresh=r["fresh"], detail="history answers %r vs fresh %r" % (r["results"], r["fresh"]), misses=r["misses"])
